@@ -71,7 +71,9 @@ SPEC = {
             "distinct_nontrivial = distinct implementation transcripts.",
     "not_proved": [
         "identification of the computed identifiers with cells (new cell = union of the two old cells, 3-D vertex-cell calculus): oracle only",
-        "3-sew edge/face placement and 3-unsew placement: oracle only",
+        "3-sew / 3-unsew placement is proved as the exact chain of merges/splits relative to the collected id pairs "
+        "(C05_threeSew3_effect, C05_threeUnsew3_effect; under the proviso on the chain: C05_threeSew3_vertices); that the collected "
+        "pairs are the pairs of cells united by the 3-link on closed faces: oracle only",
         "ring-closing configurations where a cell takes part in two identifications of one call, and every other such configuration: "
         "correspondence only (the data clause of the oracle is skipped there, counted as skipped-multi)",
         "1-sew/1-unsew of a dart of a 3-sewn face whose vertex has a 2-free dart misplace the vertex data (one_sew/one_unsew compute "
